@@ -69,7 +69,24 @@ def build(s, runtime, only=None, exclude=()):
     return "\n".join(lines) + "\n", "".join(e + "\n" for e in expected)
 
 
+BATCH_SAFE = set("abcdefghijklmnopqrstuvwxyzABCDEFGHIJKLMNOPQRSTUVWXYZ0123456789 \t\n!=,;()&|<>~*?-_.:/+#@[]{}'")
+
+
+def _cmd(script):
+    import cmdsim
+    try:
+        out, st = cmdsim.run(script)
+        return ("ok", out, st)
+    except cmdsim.Stuck as e:
+        return ("stuck", str(e), None)
+    except cmdsim.Budget:
+        return ("budget", "", None)
+    except (RecursionError, MemoryError):
+        return ("budget", "recursion/memory", None)
+
+
 def run(res, b, tier, seed):
+    batch_fails = []
     pr = common.prove("C08")
     common.proof_coverage(res, pr)
     if b.harness_error or b.model_error:
@@ -96,7 +113,7 @@ def run(res, b, tier, seed):
             files = {"main.tsh": src.encode()}
             c = pipeline.Case("c%d" % len(cases), files, meta=dict(label=label, s=s, origin=origin, expected=exp, src=src))
             cases.append(c)
-    pipeline.run_pipe(b, cases, "as")
+    pipeline.run_pipe(b, cases, "asw")
     pipeline.model_full(b, cases)
     dis = []
     for c in cases:
@@ -104,6 +121,9 @@ def run(res, b, tier, seed):
         canon = "OK " + impl[1] if impl[0] == "OK" else impl[0]
         if c.meta.get("model_bash") != canon:
             dis.append(c)
+    # the Batch scripts of ALL strings and origins (the cmd model runs only the literal programs over its safe alphabet, below): tied
+    # to the Lean rendering of the Batch converter
+    dis += [c for c in pipeline.batch_disagreements(b, cases) if c not in dis]
     # the semantic models on these strings: every literal (all data paths but the file one) through the Lean source semantics and the
     # Lean bash model next to the reference result and /bin/bash (ties the quoting part of Sem2/Bash to bash on special characters)
     semcases = []
@@ -145,8 +165,28 @@ def run(res, b, tier, seed):
     by_path = {}
     for c, name, what, r in attributed:
         by_path.setdefault((name, c.meta["origin"]), []).append(c.meta["s"])
+    # Batch target: the literal-origin programs whose characters the cmd model of C05 reads as cmd.exe does (letters, digits, blank,
+    # tab, LINE BREAK, `!` and punctuation without a meaning inside a quoted `set`; not `%`, `^`, `"`) are executed by that model (round
+    # 9: C08-B, the `!` of the `!LF!` that stands for a line break escaped to `^!LF^!`)
+    import cmdsim
+    bcases = []
+    for label, s0 in strings:
+        if all(ch in BATCH_SAFE for ch in s0):
+            # (a subscript of the EMPTY string is the known Batch finding substring-of-empty-string of C05: left out here)
+            src, exp = build(s0, "literal", exclude=("write-read", "file-name") + (("subscript",) if s0 == "" else ()))
+            bcases.append(pipeline.Case("b%d" % len(bcases), {"main.tsh": src.encode()}, meta=dict(src=src, expected=exp, s=s0, origin="literal")))
+    pipeline.run_pipe(b, bcases, "w")
+    bok = [c for c in bcases if c.out.get("BATCH", ("", ""))[0] == "OK"]
+    batch_stats = dict(programs=len(bcases), run=0)
+    for c, r in zip(bok, common.pmap_proc(_cmd, [bytes.fromhex(c.out["BATCH"][1]).decode("utf-8", "replace") for c in bok], chunksize=4)):
+        if r[0] != "ok":
+            continue
+        batch_stats["run"] += 1
+        if r[1] != c.meta["expected"] or r[2] != 0:
+            batch_fails.append((c, r))
     res.coverage.update(dict(
         evaluations=len(cases),
+        batch_target_under_cmd_model=batch_stats,
         distinct_nontrivial=len({(c.meta["s"], c.meta["origin"]) for c in cases}),
         rule="every character of the 97-character alphabet (printable ASCII, line feed, tab) in only/first/middle/last position (quick: only + one rotating "
              "position), %d shell-significant special strings, random strings; x 13 data paths (print, assign, concat, compare, call/return, slice literal, "
@@ -173,6 +213,11 @@ def run(res, b, tier, seed):
                                      program=build(c.meta["s"], c.meta["origin"], only=None if name in ("all", "combined") else name)[0],
                                      stdout=r["stdout"].decode("latin1")[:500] if r else None, stderr=r["stderr"].decode("latin1")[:300] if r else None,
                                      canary=("canary" in r["tree"]) if r else None))
+    for c, r in batch_fails[:3]:
+        res.violation("oracle", dict(what="behaviour of the Batch script under the cmd model", origin="literal", string=c.meta["s"], string_hex=c.meta["s"].encode().hex(),
+                                     program=c.meta["src"], expected_stdout=c.meta["expected"][:800], under_cmd_model=str(r)[:800],
+                                     script=bytes.fromhex(c.out["BATCH"][1]).decode("utf-8", "replace")[:3000]))
+    real = real or batch_fails
     if not real and sem_dis:
         c, got, want = sem_dis[0]
         if not (("$" in c.meta["s"] or "`" in c.meta["s"]) and res.known_finding("literal-dollar-backquote-expanded", "semantic models")):
